@@ -15,7 +15,7 @@ import (
 	"github.com/irismod/service/types"
 )
 
-const nScripts = 42
+const nScripts = 43
 
 func runScript(a *App, mon *Mon, seed int64, v int) {
 	p := baseParams()
@@ -448,9 +448,11 @@ func runScript(a *App, mon *Mon, seed int64, v int) {
 		np := s.p
 		np.MaxRequestTimeout = 5
 		s.r.ChangeParams(np)
+		s.r.Probe() // queries and the genesis scenario right after the change, a batch of the old regime in flight
 		s.r.Msg(types.NewMsgUpdateServiceBinding("svc", p5, nil, price("70"), 4, "{}", o2), "response time repaired and price raised tenfold without collateral")
 		s.r.Msg(types.NewMsgUpdateServiceBinding("svc", p5, nil, "", 4, "{}", o2), "response time repaired")
 		blocks(12) // batch 2 is issued under the lowered maximum
+		s.r.Probe()
 		answer(id, p1)
 		blocks(13) // batch 2 expires: p4 (and p5) unanswered
 		blocks(2)
@@ -537,6 +539,10 @@ func runScript(a *App, mon *Mon, seed int64, v int) {
 		np.MaxRequestTimeout = 0
 		s.r.ChangeParams(np)
 		np = s.p
+		np.MinDeposit = sdk.Coins{sdk.NewCoin(denom, sdk.NewInt(50)), sdk.NewCoin("atom", sdk.NewInt(1))} // not sorted: not a valid coin list
+		s.r.ChangeParams(np)
+		s.r.Msg(types.NewMsgBindService("svc", s.A.SignProv[3], coins(20), price("1"), 1, "{}", o2), "below the minimum deposit")
+		np = s.p
 		np.ComplaintRetrospect = -time.Second
 		s.r.ChangeParams(np)
 		blocks(3)
@@ -571,10 +577,14 @@ func runScript(a *App, mon *Mon, seed int64, v int) {
 		// flight; the context is paused and started again inside that batch, and its timeout is
 		// brought under the new maximum by an update before a later start
 		id := s.call("svc", all, cons, 100, 12, false, true, 12, 3)
+		one := s.call("svc", []sdk.AccAddress{p1}, s.A.Consumers[1], 100, 12, false, false, 0, 0)
 		s.block()
 		np := s.p
 		np.MaxRequestTimeout = 4
 		s.r.ChangeParams(np)
+		s.r.Probe()
+		s.ctl("kill", one, s.A.Consumers[1])  // a one-shot context is never killed, whatever the parameters say now
+		s.ctl("pause", one, s.A.Consumers[1]) // ... nor paused
 		s.ctl("pause", id, cons)
 		s.ctl("start", id, cons)
 		blocks(3)
@@ -616,6 +626,35 @@ func runScript(a *App, mon *Mon, seed int64, v int) {
 		s.r.Msg(types.NewMsgWithdrawEarnedFees(o2, nil), "whole-owner withdrawal after a restart")
 		s.r.Msg(types.NewMsgWithdrawEarnedFees(o1, p1), "")
 		blocks(5)
+	case 42:
+		// a binding disabled before the refund periods are shortened by governance, the refund asked
+		// for between the new and the old deadline, with blocks (commits, node restarts) in
+		// between; a binding disabled long ago, left unrefunded through a restart, then enabled
+		// again and failing a request; several module contexts going through the restart
+		s.r.Msg(types.NewMsgDisableServiceBinding("svc", p3, o2), "")
+		s.r.Msg(types.NewMsgDisableServiceBinding("svc", p2, o1), "")
+		m1 := s.modCreate("svc", []sdk.AccAddress{p1}, cons, 100, 2, true, 3, 4, 1)
+		m2 := s.modCreate("svc", []sdk.AccAddress{p1}, cons, 100, 2, true, 4, 4, 1)
+		m3 := s.modCreate("svc", []sdk.AccAddress{p1}, cons, 100, 2, true, 5, 4, 1)
+		blocks(3)
+		np := s.p
+		np.ComplaintRetrospect, np.ArbitrationTimeLimit = 20*time.Second, 20*time.Second
+		s.r.ChangeParams(np) // lengthened: 15 s -> 40 s
+		blocks(4)            // 35 s after the disabling: past the old deadline, before the new one
+		s.r.Msg(types.NewMsgRefundServiceDeposit("svc", p3, o2), "after the old deadline, before the new one")
+		np.ComplaintRetrospect, np.ArbitrationTimeLimit = 2*time.Second, 2*time.Second
+		s.r.ChangeParams(np) // shortened: 40 s -> 4 s
+		blocks(2)
+		s.r.RestartOpt(true) // p2 and p3 still hold their deposits, long past every deadline
+		s.modCtl("start", m1, cons)
+		s.modCtl("start", m2, cons)
+		s.modCtl("start", m3, cons)
+		s.r.Msg(types.NewMsgEnableServiceBinding("svc", p2, nil, o1), "enabled again after the restart")
+		id := s.call("svc", []sdk.AccAddress{p2, p3}, cons, 100, 2, false, false, 0, 0)
+		blocks(4) // p2 fails its request
+		_ = id
+		s.r.Msg(types.NewMsgRefundServiceDeposit("svc", p3, o2), "long after the deadline")
+		blocks(3)
 	}
 	s.done()
 }
